@@ -47,17 +47,14 @@ pub fn xonly_acc(b: &[u8; 32]) -> bool {
 
 pub unsafe fn model_xonly_pubkey_parse(_cx: *const sffi::Context, pk: *mut sffi::XOnlyPublicKey, input32: *const c_uchar) -> c_int {
     SEEN = true;
+    // loop-free on purpose (memcpy): harnesses can then use a small global unwind bound
     let mut x = [0u8; 32];
-    let mut raw = [0u8; 64];
-    let mut i = 0;
-    while i < 32 {
-        x[i] = *input32.add(i);
-        raw[i] = x[i];
-        i += 1;
-    }
+    core::ptr::copy_nonoverlapping(input32, x.as_mut_ptr(), 32);
     if !xonly_acc(&x) {
         return 0;
     }
+    let mut raw = [0u8; 64];
+    core::ptr::copy_nonoverlapping(x.as_ptr(), raw.as_mut_ptr(), 32);
     *pk = sffi::XOnlyPublicKey::from_array_unchecked(raw);
     1
 }
@@ -65,24 +62,25 @@ pub unsafe fn model_xonly_pubkey_parse(_cx: *const sffi::Context, pk: *mut sffi:
 pub unsafe fn model_xonly_pubkey_serialize(_cx: *const sffi::Context, output32: *mut c_uchar, pk: *const sffi::XOnlyPublicKey) -> c_int {
     SEEN = true;
     let raw = (*pk).underlying_bytes();
-    let mut i = 0;
-    while i < 32 {
-        *output32.add(i) = raw[i];
-        i += 1;
-    }
+    core::ptr::copy_nonoverlapping(raw.as_ptr(), output32, 32);
     1
 }
 
+fn be_word(b: &[u8; 64], k: usize) -> u64 {
+    u64::from_be_bytes([b[8 * k], b[8 * k + 1], b[8 * k + 2], b[8 * k + 3], b[8 * k + 4], b[8 * k + 5], b[8 * k + 6], b[8 * k + 7]])
+}
+
+/// lexicographic order of the 32 serialized bytes, loop-free (four big-endian words)
 pub unsafe fn model_xonly_pubkey_cmp(_cx: *const sffi::Context, a: *const sffi::XOnlyPublicKey, b: *const sffi::XOnlyPublicKey) -> c_int {
     SEEN = true;
     let x = (*a).underlying_bytes();
     let y = (*b).underlying_bytes();
-    let mut i = 0;
-    while i < 32 {
-        if x[i] < y[i] { return -1; }
-        if x[i] > y[i] { return 1; }
-        i += 1;
-    }
+    let (x0, x1, x2, x3) = (be_word(&x, 0), be_word(&x, 1), be_word(&x, 2), be_word(&x, 3));
+    let (y0, y1, y2, y3) = (be_word(&y, 0), be_word(&y, 1), be_word(&y, 2), be_word(&y, 3));
+    if x0 != y0 { return if x0 < y0 { -1 } else { 1 }; }
+    if x1 != y1 { return if x1 < y1 { -1 } else { 1 }; }
+    if x2 != y2 { return if x2 < y2 { -1 } else { 1 }; }
+    if x3 != y3 { return if x3 < y3 { -1 } else { 1 }; }
     0
 }
 
@@ -93,10 +91,6 @@ pub fn any_xonly() -> bitcoin::secp256k1::XOnlyPublicKey {
 }
 pub fn xonly_from(x: [u8; 32]) -> bitcoin::secp256k1::XOnlyPublicKey {
     let mut raw = [0u8; 64];
-    let mut i = 0;
-    while i < 32 {
-        raw[i] = x[i];
-        i += 1;
-    }
+    raw[..32].copy_from_slice(&x);
     bitcoin::secp256k1::XOnlyPublicKey::from(unsafe { sffi::XOnlyPublicKey::from_array_unchecked(raw) })
 }
